@@ -181,6 +181,66 @@ def _reference_dist(atom, state, n):
     return {k: v for k, v in d.items() if v > 1e-13}
 
 
+def _observe_real_draws(case, state):
+    """Fallback without decisions (JAX generator): shots=[150, 250, 600] of sample(all wires) with the device's
+    real generator.  Returns None or (what, detail).  Deterministic for a given PRNGKey.  Threshold 1e-9 per
+    test; an outcome of exact probability zero is an immediate violation."""
+    import jax
+    from scipy.stats import chi2
+
+    qp, np, qgen, sim = _ENV["qp"], _ENV["np"], _ENV["qgen"], _ENV["sim"]
+    n = case["n"]
+    bins = [150, 250, 600]
+    _ENV["hub"] = None
+    dev = qp.device("default.qubit", wires=n, seed=jax.random.PRNGKey(case["dev_seed"] % (2**31)))
+    tape = qgen.build_tape({"ops": case["ops"], "mps": [["sample", list(range(n))]], "shots": bins})
+    res = qp.execute([tape], dev, diff_method=None, cache=False)[0]
+    exact = sim.probs(state, list(range(n)), n)
+    if len(res) != len(bins):
+        return "bins", {"expected_bins": len(bins), "observed": len(res)}
+
+    def hist(rows):
+        h = np.zeros(2**n)
+        for r in rows:
+            i = 0
+            for b in np.asarray(r).reshape(-1):
+                i = (i << 1) | int(b)
+            h[i] += 1
+        return h
+
+    def gof(obs, expected_p, nn):
+        e = expected_p * nn
+        if ((e < 1e-9) & (obs > 0)).any():
+            return 0.0
+        big = e >= 5
+        o2, e2 = list(obs[big]), list(e[big])
+        if (~big).any():
+            o2.append(obs[~big].sum())
+            e2.append(e[~big].sum())
+        o2, e2 = np.array(o2), np.array(e2)
+        keep = e2 > 1e-9
+        if keep.sum() < 2:
+            return 1.0
+        stat = float((((o2 - e2) ** 2)[keep] / e2[keep]).sum())
+        return float(chi2.sf(stat, int(keep.sum()) - 1))
+
+    for bi, (k, rows) in enumerate(zip(bins, res)):
+        rows = np.asarray(rows).reshape(k, -1) if np.asarray(rows).size == k * n else None
+        if rows is None:
+            return "bin_size", {"bin": bi, "shots": k, "observed_shape": list(np.asarray(res[bi]).shape)}
+        pv = gof(hist(rows), exact, k)
+        if pv < 1e-9:
+            return "bin_distribution", {"bin": bi, "shots": k, "p_value": pv,
+                                        "observed": hist(rows).tolist(), "exact": np.round(exact, 5).tolist()}
+        # the shots of a bin are exchangeable: its first half must look like its second half
+        h1, h2 = hist(rows[:k // 2]), hist(rows[k // 2:])
+        pooled = (h1 + h2) / k
+        pv2 = min(gof(h1, pooled, k // 2), gof(h2, pooled, k - k // 2))
+        if pv2 < 1e-9:
+            return "shot_position", {"bin": bi, "p_value": pv2, "first_half": h1.tolist(), "second_half": h2.tolist()}
+    return None
+
+
 def _normalise_results(res, n_mps, bins):
     """-> list over bins of list over measurements."""
     if len(bins) > 1:
@@ -299,8 +359,15 @@ def run_case(case):
                 "associations_ambiguous": 0, "offers_subset_layout": 0}
     if res is not None:
         if not offers:
-            # the implementation no longer samples through choice(p=...): nothing to decide here
+            # the implementation does not sample through choice(p=...) here: the simulator decides nothing,
+            # so this run falls back to observation -- real draws of the device's own generator, many shots,
+            # goodness of fit per shot bin and between the two halves of each bin (strict threshold)
             counters["no_offers"] = 1
+        if case["rng"] == "jax" and (not offers or case["decide_seed"] % 8 == 0):
+            bad = _observe_real_draws(case, state)
+            counters["runs_observed_with_real_draws"] = 1
+            if bad:
+                viol("real_draws_inconsistent_with_born_rule", {"what": bad[0], "seam_bypassed": not offers}, bad[1])
         per_bin = None
         try:
             per_bin = _normalise_results(res, len(case["mps"]), bins)
